@@ -48,6 +48,7 @@ func genResolverShared(repo string) (string, error) {
 	}
 	var fields, fwrites [][]string
 	var vwrites, vars [][]string
+	var fillerReads [][]string
 	for _, p := range pkgs {
 		sysn := p.Types.Name()
 		st, named := findStruct(p, "resolver")
@@ -82,6 +83,35 @@ func genResolverShared(repo string) (string, error) {
 					fname = recvName(fd.Recv.List[0].Type) + "." + fname
 				}
 				isInit := fd.Recv == nil && fd.Name.Name == "init"
+				// functions that fill an LRU cache: which fields of this package's
+				// own structs do they read (directly, closures included)?
+				fills := false
+				ast.Inspect(fd.Body, func(n ast.Node) bool {
+					if call, ok := n.(*ast.CallExpr); ok {
+						if sel, ok := ast.Unparen(call.Fun).(*ast.SelectorExpr); ok && sel.Sel.Name == "Add" {
+							if t := p.TypesInfo.TypeOf(sel.X); t != nil && strings.Contains(relType(t), "internal/lru.Cache") {
+								fills = true
+							}
+						}
+					}
+					return true
+				})
+				if fills {
+					ast.Inspect(fd.Body, func(n ast.Node) bool {
+						sel, ok := n.(*ast.SelectorExpr)
+						if !ok {
+							return true
+						}
+						s := p.TypesInfo.Selections[sel]
+						if s == nil || s.Kind() != types.FieldVal {
+							return true
+						}
+						if nt, ok := deref(s.Recv()).(*types.Named); ok && nt.Obj().Pkg() == p.Types {
+							fillerReads = append(fillerReads, []string{sysn, fname, nt.Obj().Name() + "." + s.Obj().Name()})
+						}
+						return true
+					})
+				}
 				rootVar := func(e ast.Expr) (types.Object, bool) {
 					direct := true
 					for {
@@ -225,6 +255,7 @@ func genResolverShared(repo string) (string, error) {
 	emit(&b, "fields", "String × String × String", "(system, field, type) of `resolver`, in declaration order", fields)
 	emit(&b, "fieldWrites", "String × String × String", "writes to (or through) a resolver field outside a composite literal: (system, field, function)", sortRows(fwrites))
 	emit(&b, "pkgVarWrites", "String × String × String × String", "package-level variables written by a function other than init: (package, variable, function, how)", sortRows(vwrites))
+	emit(&b, "cacheFillerReads", "String × String × String", "fields of the package's own structs read (directly, closures included) by the functions that call Add on an LRU cache: (system, function, Type.field)", sortRows(fillerReads))
 	emit(&b, "pkgVars", "String × String × String", "all package-level variables, for the reader: (package, variable, type)", sortRows(vars))
 	b.WriteString("end DepsDev.Gen.C05ResolverShared\n")
 	return b.String(), nil
